@@ -278,3 +278,78 @@ def _(v):
     A2, ck2 = v.call(rsys.composition_balance_vectors)
     v.prove("columns_follow_the_new_order", SP.conj([v.eq(A2[i][j], comp[s].get(k, 0)) for i, k in enumerate(CKS) for j, s in enumerate(sorted(order))]))
     v.prove("keys_unchanged", list(ck1) == CKS and list(ck2) == CKS)
+
+
+@harness("C05", "analytic_elimination", functions=["chempy.kinetics.ode:get_odesys.<locals>.linear_dependencies", "chempy.kinetics.ode:get_odesys.<locals>.linear_dependencies.<locals>.analytic_solver"], kind="data")
+def _(v):
+    """'any analytic elimination of a concentration offered from them reproduces those invariants': the expression offered for an eliminated
+    concentration, substituted into the conservation relations, makes them hold identically in the remaining concentrations -- which requires that no
+    eliminated concentration is left in it.  All preferred subsets of sizes 1..rank of one NOx system in two substance orders (real pyodesys object)"""
+    import itertools
+    import sympy
+    from collections import OrderedDict
+    from chempy.chemistry import Substance
+    from chempy.reactionsystem import ReactionSystem
+    from chempy.kinetics.ode import get_odesys
+    base = ReactionSystem.from_string("2 HNO2 -> H2O + NO + NO2; 3\n2 NO2 -> N2O4; 4", substance_factory=Substance.from_formula)
+    for tag, order in (("order1", ["NO", "H2O", "HNO2", "N2O4", "NO2"]), ("order2", ["HNO2", "H2O", "NO", "NO2", "N2O4"])):
+        rs = ReactionSystem(base.rxns, OrderedDict((k, base.substances[k]) for k in order))
+        odesys, extra = get_odesys(rs)
+        A = sympy.Matrix(odesys.linear_invariants)
+        rank = A.rank()
+        y0 = {d: sympy.Symbol("y0_" + n) for d, n in zip(odesys.dep, odesys.names)}
+        circular, wrong, total = [], [], 0
+        for size in range(1, rank + 1):
+            for pref in itertools.combinations(order, size):
+                try:
+                    ex = extra["linear_dependencies"](list(pref))(0, y0, None, sympy)
+                except ValueError:
+                    continue              # refusing a subset is allowed
+                total += 1
+                elim = set(ex.keys())
+                if any(e.free_symbols & elim for e in ex.values()):
+                    circular.append(pref)
+                    continue
+                full = [ex.get(d, d) for d in odesys.dep]
+                resid = A * sympy.Matrix(full) - A * sympy.Matrix([y0[d] for d in odesys.dep])
+                # with the eliminated ones expressed, the remaining freedom is len(dep) - len(elim): the relations must hold modulo the OTHER invariants only if
+                # fewer were eliminated than the rank; what must always hold: every offered equation is a consequence of the invariants
+                for d, e in ex.items():
+                    lhs = sympy.expand(d - e)
+                    coeffs = sympy.Matrix([[lhs.coeff(x) for x in odesys.dep]])
+                    aug = A.col_join(coeffs)
+                    const_ok = sympy.expand(lhs - sum(c * x for c, x in zip(coeffs, odesys.dep)) + sum(c * y0[x] for c, x in zip(coeffs, odesys.dep))) == 0
+                    if aug.rank() != rank or not const_ok:
+                        wrong.append((pref, str(d)))
+        v.prove(tag + ".every_offered_equation_follows_from_the_invariants", not wrong and total >= 10, detail=repr(wrong[:3]))
+        v.prove(tag + ".no_eliminated_concentration_left_in_an_offered_expression", not circular, detail="circular for preferred=%s" % (circular[:4],))
+
+
+@harness("C05", "decimal_compositions", functions=[RS + ":ReactionSystem.check_balance", CH + ":Reaction.composition_violation"], kind="data")
+def _(v):
+    """formula-defined substances with decimal subscripts: a reaction that leaves every element unchanged (exactly, in the decimals as written) is
+    accepted, one that does not is refused naming the element"""
+    from chempy.chemistry import Substance, Reaction, balance_stoichiometry
+    from chempy.reactionsystem import ReactionSystem
+    subs = [Substance.from_formula(f) for f in ("Fe0.1O0.1", "Fe0.3O0.3")]
+    try:
+        ReactionSystem([Reaction({"Fe0.1O0.1": 3}, {"Fe0.3O0.3": 1})], subs)
+        ok, det = True, ""
+    except ValueError as e:
+        ok, det = False, str(e)
+    v.prove("balanced_in_the_decimals_as_written_is_accepted", ok, detail=det)
+    r, p = balance_stoichiometry({"Fe0.1O0.1"}, {"Fe0.3O0.3"})
+    v.prove("the_balancer_returns_that_very_reaction", (dict(r), dict(p)) == ({"Fe0.1O0.1": 3}, {"Fe0.3O0.3": 1}))
+    try:
+        ReactionSystem([Reaction({"Fe0.1O0.1": 2}, {"Fe0.3O0.3": 1})], subs)
+        refused = None
+    except ValueError as e:
+        refused = str(e)
+    v.prove("unbalanced_is_refused_naming_an_element", refused is not None and ("(26:" in refused or "(8:" in refused), detail=repr(refused))
+    halves = [Substance.from_formula(f) for f in ("H0.5", "H2")]
+    try:
+        ReactionSystem([Reaction({"H0.5": 4}, {"H2": 1})], halves)
+        okh = True
+    except ValueError:
+        okh = False
+    v.prove("binary_fractions_accepted", okh)
